@@ -142,6 +142,30 @@ def run(chk):
             chk.violation("codec-crash", "GdsFloat64", {"batch": q.get("id")}, q)
             continue
         events.extend(q["events"])
+    # decimal neighbourhoods: the values real files carry (user and database units) are m * 10^k; every real and every double
+    # within 4 units in the last place of the nearest representation of 10^k, 2*10^k, 5*10^k over the whole range goes through
+    # the code and is judged by Trace_GdsReal like the random events
+    dec = []
+    for k in range(-76, 75):
+        for m in (1, 2, 5):
+            v = Fraction(10) ** k * m
+            if not (Fraction(16) ** -65 <= v < Fraction(16) ** 62):
+                continue
+            xb = struct.unpack(">Q", struct.pack(">d", float(v)))[0]
+            g0 = py_encode(xb)
+            for d in range(-4, 5):
+                dec.append({"id": len(dec), "kind": "d", "x": dig(xb + d)})
+                g = g0 + d
+                if (g >> 52) & 0xF:          # still normalised
+                    dec.append({"id": len(dec), "kind": "g", "g": dig(g)})
+    for c, q in zip(dec, vlib.harness("gdsreal", dec, W, tag="gdsreal_dec")):
+        if q.get("outcome") != "ok":
+            chk.violation("codec-crash", "GdsFloat64", {"kind": c["kind"], "in": "%016x" % undig(c.get("x") or c.get("g"))}, q)
+        elif c["kind"] == "d":
+            events.append({"kind": "d", "x": c["x"], "g": q["g"], "back": q["back"]})
+        else:
+            events.append({"kind": "g", "g": c["g"], "x": q["x"], "re": q["re"]})
+    chk.cov["decimal_neighbourhood_values"] = len(dec)
     # validate in chunks (bounded memory per TLC run)
     CH = 50000
     nbad = 0
@@ -175,7 +199,7 @@ def run(chk):
         "model_checking",
         rule="doubles within 8 ulp of every power of two 2^-256..2^251 (contains every power of sixteen), all 0/1/2-bit fraction "
              "patterns at 5 (quick) / 16 (thorough) binades, extremes, zero; normalised reals at rounding boundaries and single "
-             "nibbles; plus uniform random in-range doubles and normalised reals recorded from the code. distinct = distinct input "
+             "nibbles; plus uniform random in-range doubles and normalised reals recorded from the code, plus every double and real within 4 ulp of 10^k, 2*10^k, 5*10^k over the range. distinct = distinct input "
              "bit pattern; every one is non-trivial (a real conversion).",
         assumptions=["-0.0 is outside the domain (GDSII has a single zero)", "only normalised reals are decoded",
                      "the exact-rational self-test (python fractions) vouches for GdsReal.tla on the sampled values"])
